@@ -151,9 +151,9 @@ func (e *byzEngine) buildState(bc *ByzCase) (*byzState, *Stats) {
 		case n.cfg.Kind == "pollard":
 			bs.pol = n.pol
 		case n.cfg.Kind == "mapfull":
-			bs.mpFull = n.mp
+			bs.mpFull = n.mp.m
 		case n.cfg.Kind == "mappartial":
-			bs.mpPart2 = n.mp
+			bs.mpPart2 = n.mp.m
 		}
 	}
 	if bs.st.N > 0 {
